@@ -82,6 +82,10 @@ def check_struct(sidx, d, objs_in):
             return "second write differs at /%s: %r vs %r" % (k, a, b)
         if not indirect and (c1 or c2):
             return "writer created objects without an indirect field"
+        # an entry the writer adds for an absent key must carry the standard's default
+        for k in w1:
+            if k not in d and (s["name"], k) in T.SPEC_DEFAULTS and not T.equiv(T.SPEC_DEFAULTS[(s["name"], k)], w1[k], objs):
+                return "entry /%s added with %r, the standard's default is %r" % (k, w1[k], T.SPEC_DEFAULTS[(s["name"], k)])
         # 2. every entry of the input is preserved (models that keep unrecognised entries)
         if has_other:
             for k, v in d.items():
@@ -104,6 +108,9 @@ def check_struct(sidx, d, objs_in):
                     continue                       # absent one-or-many field = empty array
                 if fd is None or fd["default"][0] == 0:
                     return "entry /%s invented" % k
+                sd = T.SPEC_DEFAULTS.get((s["name"], k))
+                if sd is not None and not T.equiv(sd, w1[k], objs):
+                    return "entry /%s added with %r, the standard's default is %r" % (k, w1[k], sd)
         return None
     return chk
 
